@@ -191,6 +191,10 @@ type verifE1 struct {
 	lastSig  [2]*verifE1SigRec
 	lastRev  [2]*verifE1RevRec
 
+	// probeLiveSync: at a mid-handler crash point, first process a
+	// channel_reestablish on the live object (C06).
+	probeLiveSync bool
+
 	// richAdds: some update_add_htlc carry a blinding point / custom
 	// records.
 	richAdds bool
@@ -1023,6 +1027,9 @@ func (e *verifE1) actDeliver(from int, crashAfterRecv bool) (needRestart bool) {
 		if crashAfterRecv {
 			e.logf("crash %s between ReceiveNewCommitment and RevokeCurrentCommitment", p.Name)
 			e.nMidCrash++
+			if e.probeLiveSync {
+				e.liveSyncProbe(to)
+			}
 			return true
 		}
 		rev, _, _, err := p.ch.RevokeCurrentCommitment()
@@ -1056,6 +1063,46 @@ func (e *verifE1) actDeliver(from int, crashAfterRecv bool) (needRestart bool) {
 		e.viol("honest_call_error", "unknown-msg", fmt.Sprintf("%T", m))
 	}
 	return false
+}
+
+// liveSyncProbe: party i has received (not yet revoked for) a new commitment,
+// which therefore exists in memory only. A channel_reestablish of the peer is
+// processed on this LIVE object (the object is discarded right afterwards):
+// whatever revoke_and_ack it hands out must be for a commitment older than
+// the one a reload from disk would broadcast (C06 release rule, "on
+// reconnect").
+func (e *verifE1) liveSyncProbe(i int) {
+	p := e.parties[i]
+	peer := e.parties[1-i]
+	sync, err := peer.ch.channelState.ChanSyncMsg()
+	if err != nil {
+		return
+	}
+	msgs, _, _, err := p.ch.ProcessChanSyncMsg(context.Background(), sync)
+	e.vc.Count("live_sync_probes", 1)
+	if err != nil {
+		// an error on a live, half-updated object is not judged.
+		e.vc.Count("live_sync_probe_errors", 1)
+		return
+	}
+	durable := p.ch.channelState.LocalCommitment.CommitHeight
+	for _, m := range msgs {
+		rev, ok := m.(*lnwire.RevokeAndAck)
+		if !ok {
+			continue
+		}
+		e.vc.Count("oracle_live_sync_release", 1)
+		for h := int64(durable) + 2; h >= 0 && h >= int64(durable)-3; h-- {
+			if verifShaDerive(p.root, uint64(h)) == rev.Revocation {
+				if uint64(h) >= durable {
+					e.viol("release_only_when_durable", "live-reconnect-mid-handler",
+						fmt.Sprintf("%s, holding a received but not yet revoked-for commitment, released the secret of height %d on reconnect while its durable commitment is still height %d",
+							p.Name, h, durable))
+				}
+				break
+			}
+		}
+	}
 }
 
 // noteRelease records a revocation handed out by the API. The height it
